@@ -13,7 +13,42 @@ ASSUMPTIONS = [
     "correspondence)",
 ]
 CFG = {"quick": 300, "thorough": 8000, "versions": ["2.0", "2.1", "2.2"], "lengths": [15, 30, 45],
-       "bias": {"wake": 2.5, "req": 2, "ctl_set": 1.5, "pres_child": 1.5, "update": 1.5}, "malformed": 0.1}
+       "persist": ["none", "none", "none", "pickle", "json"],
+       "bias": {"wake": 2.5, "req": 2, "ctl_set": 1.5, "pres_child": 1.5, "update": 1.5, "restart": 1.5}, "malformed": 0.1,
+       "search_suffixes": [gwfam.repeat_tail]}
+
+
+def kwargs_sweep(res):
+    """Controller calls with every documented keyword (msg_type, ack) for a node that is asleep: whatever the
+    call does (store the value, refuse it), nothing may reach the wire before the node's next wake-up."""
+    from . import gw
+    for version in ("2.0", "2.1", "2.2"):
+        wake = f"1;255;3;0;{32 if version == '2.2' else 22};100\n"
+        for msg_type in (None, 1, 2, "1", "2", 0, 3, 4, "set", True):
+            for ack in (None, 0, 1):
+                rg = gw.RealGW(version, "tcp", "none")
+                for line in ("1;255;0;0;17;" + version + "\n", "1;0;0;0;3;\n", "1;0;1;0;2;1\n", wake):
+                    rg.apply(("L", line))
+                before = len(rg.transport.log)
+                kwargs = {}
+                if msg_type is not None:
+                    kwargs["msg_type"] = msg_type
+                if ack is not None:
+                    kwargs["ack"] = ack
+                outcome = "ret"
+                try:
+                    rg.gw.set_child_value(1, 0, 2, "0", **kwargs)
+                except Exception as exc:  # noqa: BLE001
+                    outcome = type(exc).__name__
+                sent = rg.transport.log[before:]
+                res.evaluations += 1
+                res.count("kwargs-sweep:" + outcome)
+                if sent:
+                    res.oracle_failures.append({
+                        "key": {"kind": "controller-call-reaches-sleeping-node", "msg_type": repr(msg_type)},
+                        "what": f"protocol {version}: set_child_value(1, 0, 2, '0', {kwargs}) for sleeping node 1 sent "
+                                f"{sent!r} outside its wake window (call ended with {outcome})",
+                        "replay": {"op": "kwargs", "version": version, "msg_type": msg_type, "ack": ack}})
 
 
 def relevant(hist, obs):
@@ -24,6 +59,7 @@ def relevant(hist, obs):
 
 def run(tier, seed, driver):
     res = gwfam.run_family("C07", tier, seed, driver, CFG, relevant)
+    kwargs_sweep(res)
     res.rule = ("histories for versions 2.0-2.2 over 3-4 nodes biased to wake-up announcements, value requests, "
                 "controller sets, reboot requests and presentation requests for sleeping nodes; non-trivial = some "
                 "node has announced smart sleep (non-empty desired map); distinct by op script")
@@ -31,4 +67,11 @@ def run(tier, seed, driver):
 
 
 def replay(payload):
+    if payload.get("replay", {}).get("op") == "kwargs":
+        from .common import Result
+        res = Result()
+        kwargs_sweep(res)
+        bad = [f for f in res.oracle_failures if f["replay"] == payload["replay"]]
+        print(bad or "pass")
+        return 1 if bad else 0
     return gwfam.replay_family("C07", payload)
